@@ -9,7 +9,7 @@ import spec
 from spec import hex_of, bits_of
 
 OBLIGATION_MODULES = ["PyModeS.Properties.C17"]
-TIE_MODULES = ["PyModeS.Tie.DecodeDirect", "PyModeS.Tie.DecodeTotal", "PyModeS.Tie.DecodeTotal2"]
+TIE_MODULES = ["PyModeS.Tie.DecodeDirect", "PyModeS.Tie.DecodeTotal", "PyModeS.Tie.DecodeTotal2", "PyModeS.Tie.DecodeTotal3"]
 MAIN_THEOREM = "PyModeS.C17.process_no_crash / stale_bounds / commb_gated / position_invariant_partial"
 RULE = ("random histories: 1-6 aircraft on continuous trajectories (<= 600 kt airborne, <= 150 kt surface) through NL bands, the equator and the "
         "antimeridian, even/odd orderings, gaps < 10 s / 10-180 s / > 180 s, identification / velocity / status messages, random and "
